@@ -15,6 +15,7 @@ get / root from then on).
   del <key>                        -> ok | err                  trie.go:284-295
   batch <key>:<val|x> ...          -> ok <n>                    MapToMPTBatch + PutBatch (x = delete)
   flush | collapse <d> | reopen    -> ok                        Flush; Flush+Collapse(d); Flush+NewTrie(HashNode(root))
+  root (right after a failed del)  -> root <hex>                StateRoot answered from the node caches (Model/Mpt/Cache.lean `cdel`, `croot`)
   drop <hash>                      -> ok                        the DataMPT record of that hash is deleted from the store
   root                             -> root <hex>                StateRoot
   get <key>                        -> val <hex> | none | err
@@ -33,6 +34,7 @@ import NeoModel.Model.Mpt.FindExact
 import NeoModel.Model.Mpt.Guards
 import NeoModel.Model.Mpt.LazySeek
 import NeoModel.Model.Mpt.LazyFind
+import NeoModel.Model.Mpt.Cache
 import Std.Data.HashMap
 open NeoModel NeoModel.Mpt
 
@@ -64,8 +66,12 @@ structure DSt where
   l : LNode
   st : Std.HashMap Bytes Bytes
   dropped : Bool
+  /-- what `StateRoot()` answers from the node caches right after a failed Delete (Model/Mpt/Cache.lean):
+  the caches were right before (the harness sends this root line only after the FIRST failed
+  Delete / PutBatch of a case), the failed `cdel` leaves the ancestors' caches as they were -/
+  staleRoot : Option Bytes := none
 
-def DSt.init : DSt := ⟨.empty, .empty, {}, false⟩
+def DSt.init : DSt := ⟨.empty, .empty, {}, false, none⟩
 
 /-- the model's store = the map's lookup function. -/
 def DSt.store (s : DSt) : LStore := fun h => s.st.get? h
@@ -87,7 +93,7 @@ def step (s : DSt) (ws : List String) : DSt × String :=
       if putGuard kb.length vb.length then (s, "err")
       else
         let r := lput s.store fuel s.l (toNibbles kb) vb
-        ({ s with l := r.1, t := if s.dropped then t else put t (toNibbles kb) vb }, if r.2 then "err" else "ok")
+        ({ s with l := r.1, t := if s.dropped then t else put t (toNibbles kb) vb, staleRoot := none }, if r.2 then "err" else "ok")
     | _, _ => (s, "bad-op")
   | ["del", k] =>
     match Hex.decode k with
@@ -95,13 +101,15 @@ def step (s : DSt) (ws : List String) : DSt × String :=
       if keyGuard kb.length then (s, "err")
       else
         let r := ldel s.store fuel s.l (toNibbles kb)
-        ({ s with l := r.1, t := if s.dropped then t else delete t (toNibbles kb) }, if r.2 then "err" else "ok")
+        let stale := if r.2 then some (croot H (cdel H s.store fuel (cfill H s.l) (toNibbles kb)).1) else none
+        ({ s with l := r.1, t := if s.dropped then t else delete t (toNibbles kb), staleRoot := stale },
+          if r.2 then "err" else "ok")
     | none => (s, "bad-op")
   | "batch" :: items =>
     match items.mapM parseKV with
     | some m =>
       let r := lputBatch s.store fuel s.l (mapToBatch m)
-      ({ s with l := r.1, t := if s.dropped then t else putBatch t (mapToBatch m) },
+      ({ s with l := r.1, t := if s.dropped then t else putBatch t (mapToBatch m), staleRoot := none },
         if r.2 then "err" else s!"ok {m.length}")
     | none => (s, "bad-op")
   | ["flush"] => (s.flush, "ok")
@@ -115,7 +123,9 @@ def step (s : DSt) (ws : List String) : DSt × String :=
     | some hb => ({ s with st := s.st.erase hb, dropped := true }, "ok")
     | none => (s, "bad-op")
   | ["root"] =>
-    let r := lrootHash H s.l
+    let r := match s.staleRoot with
+      | some h => h
+      | none => lrootHash H s.l
     if !s.dropped && r != rootHash H t then (s, "MISMATCH-root " ++ Hex.encode r ++ " " ++ Hex.encode (rootHash H t))
     else (s, "root " ++ Hex.encode r)
   | ["get", k] =>
